@@ -577,6 +577,129 @@ func replicaScenario(rep *core.Report, mode string, layout sim.Layout) {
 	}
 }
 
+// replicaHaltCatchUpScenario: the same on a replica that is BEHIND and holds the primary's halt lock for a
+// position it has not reached (the files it is waiting for arrive over the stream): they are applied under
+// the write lock like every other streamed transaction, so a connection holding a read lock keeps them out.
+func replicaHaltCatchUpScenario(rep *core.Report, mode string, layout sim.Layout) {
+	cl := sim.NewCluster(core.Scratch("c11-replh-" + mode))
+	defer cl.Close()
+	cl.Lease.AllowOnly()
+	p, err := cl.Start("p", sim.ClusterNodeOpts{Candidate: true})
+	if err != nil {
+		core.Infra("start primary: %v", err)
+	}
+	if err := cl.Elect("p", 10*time.Second); err != nil {
+		core.Infra("elect: %v", err)
+	}
+	wp := &world{rep: rep, mode: mode, layout: layout, clients: map[string]*sim.Conn{}, procs: map[string]*proc{}, hookEntry: map[string]int{}}
+	wp.attach(p.Node, nil, nil)
+	wp.createDatabase()
+	defer func() { registryMu.Lock(); delete(registry, wp.db); registryMu.Unlock() }()
+	// the replica joins afterwards: the snapshot the primary sends it takes SHARED for a moment and would
+	// make the (non-retrying) pager simulator's EXCLUSIVE request busy
+	rn, err := cl.Start("r", sim.ClusterNodeOpts{Candidate: false, Configure: func(s *litefs.Store) { s.HaltAcquireTimeout = 30 * time.Second }})
+	if err != nil {
+		core.Infra("start replica: %v", err)
+	}
+	if err := cl.WaitPos("r", dbName, wp.db.Pos(), 10*time.Second); err != nil {
+		core.Infra("replica did not catch up: %v", err)
+	}
+	wr := &world{rep: rep, mode: mode, layout: layout, clients: map[string]*sim.Conn{}, procs: map[string]*proc{}, hookEntry: map[string]int{}}
+	wr.attach(rn.Node, []string{"a"}, nil)
+	wr.db = rn.Node.Store.DB(dbName)
+	register(wr.db, wr)
+	defer func() { registryMu.Lock(); delete(registry, wr.db); registryMu.Unlock() }()
+	wr.curReplay = func() any { return map[string]any{"kind": "replica-halt-catch-up", "mode": mode} }
+	// reader on the replica
+	rd := []reqDef{{N: "PendR", T: "R", Ls: []string{"PENDING"}}, {N: "SharedR", T: "R", Ls: []string{"SHARED"}}, {N: "PendU", T: "U", Ls: []string{"PENDING"}}}
+	if mode == "wal" {
+		rd = append(rd, reqDef{N: "DmsR", T: "R", Ls: []string{"DMS"}}, reqDef{N: "Read2R", T: "R", Ls: []string{"READ2"}})
+	}
+	for _, q := range rd {
+		// the replica may still be releasing the locks of the apply that produced the awaited position:
+		// retry like SQLite's busy handler
+		deadline := time.Now().Add(3 * time.Second)
+		for {
+			res, e := wr.doReq(wr.clients["a"], q, true)
+			if e == nil && res.OK {
+				break
+			}
+			if e != nil || time.Now().After(deadline) {
+				rep.Nonconf("reader on replica (%s): request %s failed: %v %s", mode, q.N, e, res.Err)
+				return
+			}
+			time.Sleep(time.Millisecond)
+		}
+	}
+	held := wr.clientsHolding()
+	before := wr.db.Pos()
+	// the replica falls behind: nothing is delivered to it while the primary commits (it stays connected)
+	rn.Client.Hold()
+	if mode == "wal" {
+		wp.must(wp.commitW([]int{1, 2}, 3), "WAL transaction on primary")
+	} else {
+		wp.must(wp.commitJ([]int{1, 2}, 3, false), "transaction on primary")
+	}
+	wp.setup.Close()
+	want := wp.db.Pos()
+	// a connection on the replica asks for the halt lock: it is granted at the primary's position, which
+	// the replica has not reached, and waits for the missing transaction
+	haltDone := make(chan error, 1)
+	go func() {
+		_, herr := wr.db.AcquireRemoteHaltLock(context.Background(), 777)
+		haltDone <- herr
+	}()
+	for t0 := time.Now(); wr.db.RemoteHaltLock() == nil && time.Since(t0) < 10*time.Second; time.Sleep(time.Millisecond) {
+	}
+	if wr.db.RemoteHaltLock() == nil {
+		rep.Nonconf("replica (%s): the remote halt lock was not granted", mode)
+		rn.Client.Resume()
+		return
+	}
+	rn.Client.Resume()
+	defer func() {
+		select {
+		case herr := <-haltDone:
+			if herr != nil {
+				rep.Nonconf("replica (%s): AcquireRemoteHaltLock: %v", mode, herr)
+			} else {
+				_ = wr.db.ReleaseRemoteHaltLock(context.Background(), 777)
+			}
+		case <-time.After(40 * time.Second):
+			rep.Nonconf("replica (%s): AcquireRemoteHaltLock did not return", mode)
+		}
+	}()
+	core.Beat("real:replica-halt-catch-up-blocked")
+	time.Sleep(400 * time.Millisecond) // reconnect period of the stream + the apply
+	rep.Eval(2)
+	rep.Case("replica-halt-catch-up/"+mode, true)
+	if got := wr.db.Pos(); got != before || atomic.LoadInt64(&wr.hookCalls) != 0 {
+		rep.Violate("C11.enter-only-when-free", "catch-up-under-halt-proceeded-while-client-holds/"+firstLockOf(held)+"/"+mode,
+			map[string]any{"clients_holding": held, "pos_before": before.String(), "pos_now": got.String(), "internal_page_writes": atomic.LoadInt64(&wr.hookCalls)}, wr.curReplay())
+	}
+	wr.reset()
+	core.Beat("real:replica-apply")
+	if err := cl.WaitPos("r", dbName, want, 10*time.Second); err != nil {
+		rep.Nonconf("replica (%s) did not apply the transaction after the reader released its lock: %v", mode, err)
+	}
+	core.Beat("harness")
+	n := atomic.LoadInt64(&wr.hookCalls)
+	if n == 0 {
+		rep.Nonconf("replica (%s) applied a transaction without an observed page write", mode)
+	}
+	var entries []string
+	wr.evMu.Lock()
+	for e := range wr.hookEntry {
+		entries = append(entries, e)
+	}
+	wr.evMu.Unlock()
+	sort.Strings(entries)
+	rep.Extra["replica_halt_catch_up_"+mode] = map[string]any{"internal_page_writes": n, "entry_points": entries, "reader_held": held}
+	if ex := rn.Node.Exits(); len(ex) > 0 {
+		rep.Violate("C11.no-exit", "exit/replica-halt-catch-up/"+mode, map[string]any{"codes": ex}, wr.curReplay())
+	}
+}
+
 // shmCloseScenario: PRAGMA journal_mode=DELETE on a WAL database, request by request as SQLite issues it
 // (sqlite3PagerCloseWal): the connection takes EXCLUSIVE on the database file (PENDING then the SHARED
 // range, write locks), checkpoints and empties the log, closes its -shm descriptor (FUSE FLUSH ->
